@@ -129,6 +129,28 @@ fn size_of(ctx: &Ctx, a: &Alloc, e: &Expr) -> Option<(String, bool)> {
             }
             None
         }
+        Expr::Match(m) => {
+            // match NonZeroUsize::new(E) { Some(n) => n, None => return Err(MemoryLimitReached) }
+            if let Expr::Call(c) = &*m.expr {
+                if squash(&toks(&c.func)) == "NonZeroUsize::new" && c.args.len() == 1 && m.arms.len() == 2 {
+                    let mut some_ok = false;
+                    let mut none_ok = false;
+                    for arm in &m.arms {
+                        let pt = squash(&toks(&arm.pat));
+                        let body = squash(&toks(&*arm.body));
+                        if let Some(inner) = pt.strip_prefix("Some(").and_then(|r| r.strip_suffix(")")) {
+                            some_ok = body == inner;
+                        } else if pt == "None" {
+                            none_ok = body == "returnErr(LassoError::new(LassoErrorKind::MemoryLimitReached))" || body == "{returnErr(LassoError::new(LassoErrorKind::MemoryLimitReached));}" || body == "{returnErr(LassoError::new(LassoErrorKind::MemoryLimitReached))}";
+                        }
+                    }
+                    if some_ok && none_ok {
+                        return Some((ctx.expr(&c.args[0]), true));
+                    }
+                }
+            }
+            None
+        }
         Expr::Try(t) => {
             // NonZeroUsize::new(E).ok_or_else(|| LassoError::new(LassoErrorKind::MemoryLimitReached))?
             if let Expr::MethodCall(m) = &*t.expr {
